@@ -62,7 +62,7 @@ def drive(recipe):
     row = recipe["row"]
     t = {"number": row["number"], "choice": row["choice"], "table_ops": row["ops"],
          "exc": "", "ops": [], "nops": 0, "centro": False, "latt": 1, "reduced": [],
-         "number_reported": 0, "lookup_full": {"exc": "skipped", "number": 0, "choice": "", "ops": []},
+         "steps": [], "number_reported": 0, "lookup_full": {"exc": "skipped", "number": 0, "choice": "", "ops": []},
          "lookup_reduced": {"exc": "skipped", "number": 0, "choice": "", "ops": []}, "perms": [],
          "meta": {"recipe": recipe, "source": "table-row",
                   "impl_call": "SpaceGroup(%d, choice=%r)" % (row["number"], row["choice"])}}
@@ -76,9 +76,19 @@ def drive(recipe):
     t["centro"] = bool(sg.centrosymmetric)
     t["number_reported"] = int(sg.international_tables_number)
     t["choice_reported"] = sg.choice
+    t["steps"] = []
     try:
         t["latt"] = int(sg.latt)
-        t["reduced"] = [int(s.integer_code) for s in sg.reduced_symmetry_operations()]
+        try:
+            from chmpy.util import _verif          # step events (hook commit in /repo, guard CHMPY_VERIF=1)
+            _verif.install(lambda ev: t["steps"].append({"next": ev[1], "red": ev[2]}) if ev[0] == "reduce_pop" else None)
+        except ImportError:
+            _verif = None
+        try:
+            t["reduced"] = [int(s.integer_code) for s in sg.reduced_symmetry_operations()]
+        finally:
+            if _verif is not None:
+                _verif.install(None)
     except Exception as e:
         t["exc"] = "latt/reduce:" + type(e).__name__
         return t
